@@ -9,6 +9,7 @@ use cao_lang::collections::hash_map::CaoHashMap;
 use cao_lang::prelude::{Handle, Value, Vm};
 use cao_lang::vm::runtime::cao_lang_object::{CaoLangObject, CaoLangObjectBody, ObjectGcGuard};
 use std::cmp::Ordering;
+use std::collections::HashMap;
 use std::convert::TryFrom;
 use std::ptr::NonNull;
 
@@ -21,7 +22,8 @@ enum T {
     Table(Vec<(T, T)>),
     Fn(u32, u32),
     Native(u32),
-    Closure(u32, u32),
+    /// (object tag, handle seed, arity): the same tag/handle/arity within a case = the very same object
+    Closure(u32, u32, u32),
 }
 
 const P53: i64 = 1 << 53;
@@ -99,7 +101,7 @@ fn gen_fn(r: &mut Rng) -> T {
     match r.below(3) {
         0 => T::Fn(h, a),
         1 => T::Native(h),
-        _ => T::Closure(h, a),
+        _ => T::Closure(r.below(2) as u32, h, a),
     }
 }
 
@@ -219,9 +221,10 @@ fn variant(r: &mut Rng, pool: &[u64], t: &T) -> T {
                 T::Table(e2)
             }
         },
-        T::Fn(h, a) => match r.below(3) { 0 => T::Fn(*h, *a), 1 => T::Closure(*h, *a), _ => T::Int(0) },
-        T::Native(h) => if r.chance(1, 2) { T::Native(*h) } else { T::Fn(*h, 0) },
-        T::Closure(h, a) => if r.chance(1, 2) { T::Closure(*h, *a) } else { T::Fn(*h, *a) },
+        T::Fn(h, a) => match r.below(4) { 0 => T::Fn(*h, *a), 1 => T::Closure(0, *h, *a), 2 => T::Fn(*h, 1 - *a), _ => T::Int(0) },
+        T::Native(h) => match r.below(3) { 0 => T::Native(*h), 1 => T::Native(*h + 1), _ => T::Fn(*h, 0) },
+        // the same object, another object for the same function, the plain function
+        T::Closure(c, h, a) => match r.below(3) { 0 => T::Closure(*c, *h, *a), 1 => T::Closure(*c + 1, *h, *a), _ => T::Fn(*h, *a) },
     }
 }
 
@@ -230,7 +233,7 @@ fn ptr(g: &mut ObjectGcGuard) -> NonNull<CaoLangObject> {
 }
 
 /// Builds the value; the guards keep every object protected from the collector for the case.
-fn build<'a>(vm: &mut Vm<'a, ()>, t: &T, guards: &mut Vec<ObjectGcGuard>) -> Value {
+fn build<'a>(vm: &mut Vm<'a, ()>, t: &T, guards: &mut Guards) -> Value {
     let mut g = match t {
         T::Nil => return Value::Nil,
         T::Int(i) => return Value::Integer(*i),
@@ -248,15 +251,43 @@ fn build<'a>(vm: &mut Vm<'a, ()>, t: &T, guards: &mut Vec<ObjectGcGuard>) -> Val
         }
         T::Fn(h, a) => vm.init_function(Handle::from_u32(*h), *a).unwrap(),
         T::Native(h) => vm.init_native_function(Handle::from_u32(*h)).unwrap(),
-        T::Closure(h, a) => vm.init_closure(Handle::from_u32(*h), *a).unwrap(),
+        T::Closure(c, h, a) => {
+            if let Some(v) = guards.closures.get(&(*c, *h, *a)) {
+                return *v;
+            }
+            vm.init_closure(Handle::from_u32(*h), *a).unwrap()
+        }
     };
     let v = Value::Object(ptr(&mut g));
-    guards.push(g);
+    if let T::Closure(c, h, a) = t {
+        guards.closures.insert((*c, *h, *a), v);
+    }
+    guards.keep.push(g);
     v
 }
 
+/// the objects of one case: kept protected from the collector; closure objects by description
+#[derive(Default)]
+struct Guards {
+    keep: Vec<ObjectGcGuard>,
+    closures: HashMap<(u32, u32, u32), Value>,
+}
+
+/// closure objects numbered in first-seen order over the terms of one case
+#[derive(Default)]
+struct Ids(Vec<usize>);
+impl Ids {
+    fn id(&mut self, p: NonNull<CaoLangObject>) -> u64 {
+        let a = p.as_ptr() as usize;
+        match self.0.iter().position(|x| *x == a) {
+            Some(i) => i as u64,
+            None => { self.0.push(a); (self.0.len() - 1) as u64 }
+        }
+    }
+}
+
 /// The Coq term of a value, read back from the real object (not from the description).
-fn dump(v: Value) -> String {
+fn dump(v: Value, ids: &mut Ids) -> String {
     match v {
         Value::Nil => "tnil".into(),
         Value::Integer(i) => format!("(tint {})", out::z(i)),
@@ -264,16 +295,17 @@ fn dump(v: Value) -> String {
         Value::Object(o) => match unsafe { &o.as_ref().body } {
             CaoLangObjectBody::String(s) => format!("(tstr {})", out::bytes(s.as_str().as_bytes())),
             CaoLangObjectBody::Table(t) => {
-                let es = t.keys().iter().map(|k| {
+                let mut es = vec![];
+                for k in t.keys().iter() {
                     // a key the map does not find (k != k) has no observable value: printed as nil
                     let val = t.get(k).copied().unwrap_or(Value::Nil);
-                    format!("({}, {})", dump(*k), dump(val))
-                });
+                    es.push(format!("({}, {})", dump(*k, ids), dump(val, ids)));
+                }
                 format!("(ttab {})", out::list(es))
             }
             CaoLangObjectBody::Function(f) => format!("(tfn {} {})", out::n(f.handle.value() as u64), out::n(f.arity as u64)),
             CaoLangObjectBody::NativeFunction(f) => format!("(tnat {})", out::n(f.handle.value() as u64)),
-            CaoLangObjectBody::Closure(c) => format!("(tclo {} {})", out::n(c.function.handle.value() as u64), out::n(c.function.arity as u64)),
+            CaoLangObjectBody::Closure(c) => format!("(tclo {} {} {})", out::n(ids.id(o)), out::n(c.function.handle.value() as u64), out::n(c.function.arity as u64)),
             CaoLangObjectBody::Upvalue(_) => unreachable!(),
         },
     }
@@ -325,10 +357,11 @@ fn pair_case(w: &mut CaseWriter, ta: &T, tb: &T) {
     out::describe_current(&format!("C19 pair {:?} / {:?}", ta, tb));
     let r = std::panic::catch_unwind(|| {
         let mut vm = Vm::new(()).unwrap();
-        let mut guards = vec![];
+        let mut guards = Guards::default();
+        let mut ids = Ids::default();
         let a = build(&mut vm, ta, &mut guards);
         let b = build(&mut vm, tb, &mut guards);
-        let (da, db) = (dump(a), dump(b));
+        let (da, db) = (dump(a, &mut ids), dump(b, &mut ids));
         let (eab, eba) = (a == b, b == a);
         let (cab, cba) = (a.partial_cmp(&b), b.partial_cmp(&a));
         let (ha, hb) = (hash_of(a), hash_of(b));
@@ -380,12 +413,21 @@ fn pair_case(w: &mut CaseWriter, ta: &T, tb: &T) {
         }
         (T::Nil, o) | (o, T::Nil) if is_num(o) => w.count("nil_vs_number"),
         (T::Str(_) | T::Table(_), o) | (o, T::Str(_) | T::Table(_)) if is_num(o) => w.count("object_vs_number"),
+        (T::Fn(..) | T::Native(..) | T::Closure(..), T::Fn(..) | T::Native(..) | T::Closure(..)) => {
+            w.count("fn_fn");
+            if eab { w.count("fn_fn.equal"); }
+            if let (T::Closure(c1, h1, a1), T::Closure(c2, h2, a2)) = (ta, tb) {
+                if (c1, h1, a1) == (c2, h2, a2) { w.count("closure.same_object"); }
+                else if (h1, a1) == (h2, a2) { w.count("closure.other_object_same_function"); }
+            }
+        }
         _ => w.count("other_kinds"),
     }
     if sa.nan || sb.nan { w.count("has_nan"); }
     if sa.zero || sb.zero { w.count("has_zero_real"); }
     if matches!((ta, tb), (T::Real(x), T::Real(y)) if x != y && f64::from_bits(*x) == 0.0 && f64::from_bits(*y) == 0.0) { w.count("zero_vs_negzero"); }
     if sa.func || sb.func { w.count("has_function"); }
+    if eab && (sa.fn_key || sb.fn_key) { w.count("eq.true.with_function_key"); }
     if sa.fn_key || sb.fn_key { w.count("has_function_key"); }
     if sa.nan_key || sb.nan_key { w.count("has_nan_key"); }
     if sa.depth.max(sb.depth) >= 3 { w.count("table.depth>=3"); }
@@ -398,14 +440,15 @@ fn triple_case(w: &mut CaseWriter, ta: &T, tb: &T, tc: &T) {
     out::describe_current(&format!("C19 triple {:?} / {:?} / {:?}", ta, tb, tc));
     let r = std::panic::catch_unwind(|| {
         let mut vm = Vm::new(()).unwrap();
-        let mut guards = vec![];
+        let mut guards = Guards::default();
+        let mut ids = Ids::default();
         let a = build(&mut vm, ta, &mut guards);
         let b = build(&mut vm, tb, &mut guards);
         let c = build(&mut vm, tc, &mut guards);
         let (eab, ebc, eac) = (a == b, b == c, a == c);
         let term = format!(
             "ctriple {} {} {} {} {} {} {} {} {}",
-            dump(a), dump(b), dump(c), out::b(eab), out::b(ebc), out::b(eac),
+            dump(a, &mut ids), dump(b, &mut ids), dump(c, &mut ids), out::b(eab), out::b(ebc), out::b(eac),
             cmp_s(a.partial_cmp(&b)), cmp_s(b.partial_cmp(&c)), cmp_s(a.partial_cmp(&c))
         );
         drop(guards);
@@ -441,6 +484,12 @@ pub fn gen(a: &Args) {
         (T::Table(vec![(T::Fn(1, 0), T::Int(1)), (T::Int(2), T::Int(3))]), T::Table(vec![(T::Int(2), T::Int(3)), (T::Int(4), T::Int(5))])),
         (T::Table(vec![(T::Real(f64::NAN.to_bits()), T::Int(1)), (T::Int(2), T::Int(3))]), T::Table(vec![(T::Int(2), T::Int(3)), (T::Int(4), T::Int(5))])),
         (T::Fn(1, 0), T::Fn(1, 0)),
+        (T::Fn(1, 0), T::Fn(1, 1)),
+        (T::Native(1), T::Native(1)),
+        (T::Closure(0, 1, 0), T::Closure(0, 1, 0)),                            // the same object
+        (T::Closure(0, 1, 0), T::Closure(1, 1, 0)),                            // two objects, same function: same hash, not equal
+        (T::Table(vec![(T::Closure(0, 1, 0), T::Int(1))]), T::Table(vec![(T::Closure(0, 1, 0), T::Int(1))])),
+        (T::Table(vec![(T::Closure(0, 1, 0), T::Int(1))]), T::Table(vec![(T::Closure(1, 1, 0), T::Int(1))])),
     ];
     for (x, y) in fixed.iter() {
         if w.len() < a.n { pair_case(&mut w, x, y); }
